@@ -496,6 +496,8 @@ def run(ctx) -> None:
              "resolved configurations are the same in every process only if resolving one component writes nothing into the description the "
              "next one is resolved from (effect analysis of FlowIRConcrete shared with C08: a write without invalidation, or a getter that "
              "hands out stored state which the resolver then interpolates in place)")
+    ctx.rule("C15.R14-the-later-layer-wins-whatever-its-value", "user variable files are layered with FlowIR.override_object: the last one wins only if that merge "
+             "lets the higher layer win for EVERY value that is not None - also 0, False and '' (the C04 analysis of override_object re-used)")
     ctx.rule("C15.R13-positions-in-document-mappings-are-not-used", "equal documents may list the keys of a mapping in any order: dsl.py never uses the "
              "POSITION of a key in a mapping field of the document (list(<model>.<mapping field>).index(..), a sort keyed by it) - traversal order comes "
              "from the document's lists (execute) only")
@@ -843,3 +845,26 @@ def run(ctx) -> None:
     ctx.ob("C15.R13-positions-in-document-mappings-are-not-used", dslm.tree, True,
            "%d uses of a position in a document mapping found in dsl.py (mapping fields: %s)" % (n13, ", ".join(sorted(map_fields))),
            construct="positions in document mappings in dsl.py", trivial=True)
+
+    # ---------------- R14: the merge primitive of the layering (C04.R3 re-used) ----------------------------
+    from checks import c04
+    sub4 = _Ctx("C04", ctx.tier, ctx.repo)
+    c04.run(sub4)
+    n14 = 0
+    for o in sub4.obligations:
+        if o["rule"] == "C04.R3-new-wins":
+            o2 = dict(o)
+            o2["rule"] = "C15.R14-the-later-layer-wins-whatever-its-value"
+            o2["what"] = "[%s] %s" % (o["rule"], o["what"]) + ("" if o["ok"] else
+                          " - layer_many_variable_files([first, last]) then keeps first's value wherever last sets the variable to 0, false or ''")
+            ctx.obligations.append(o2)
+            n14 += 1
+    ctx.functions_analysed |= sub4.functions_analysed
+    ctx.floor("C15.R14-the-later-layer-wins-whatever-its-value", n14, 4, "obligations on override_object re-used from the C04 analysis")
+    lm = ctx.repo.module("python/experiment/model/conf.py").functions.get("FlowIRExperimentConfiguration.layer_many_variable_files")
+    ctx.require(lm is not None, "anchor missing: layer_many_variable_files")
+    uses = any(last_attr(c_) == "override_object" for c_ in source.calls_in(lm, include_nested=True))
+    ctx.ob("C15.R14-the-later-layer-wins-whatever-its-value", lm, uses,
+           "layer_many_variable_files layers the files through override_object" if uses else
+           "layer_many_variable_files no longer layers the files through override_object: the rule above does not cover the merge it uses",
+           construct="layer_many_variable_files -> override_object")
